@@ -167,6 +167,11 @@ def evalE (f : K → K → K) (c1 c2 a1 a2 : K) : K :=
 def E (fl : K → Int) (f : K → K → K) (c1 c2 a1 a2 : K) : K :=
   evalE f c1 c2 (wrap fl c1 a1) (wrap fl c2 a2)
 
+/-- `E_gsf(a1=, a2=)` asked for MANY points in one call (numpy broadcasting over the query arrays): the list of the
+    single-point answers, in the order of the query -- whatever the number of points. -/
+def EMany (fl : K → Int) (f : K → K → K) (c1 c2 : K) (qs : List (K × K)) : List K :=
+  qs.map (fun q => E fl f c1 c2 q.1 q.2)
+
 /-- wrap of `delta` and of the `smooth=False` branch: `while a > 1: a -= 1; while a < 0: a += 1`
     (`cl` is `ceil`): values in `[0, 1]` stay, others land in `(0, 1]` from above, `[0, 1)` from below. -/
 def wrapN (fl cl : K → Int) (a : K) : K :=
@@ -401,6 +406,10 @@ def stressEnergy (full cdiff : Bool) (τ1 : V3 K) (x : List K) (d : List (V3 K))
   else
     let dx := gridStep x
     mh * lsum (List.zipWith (fun (a b : V3 K) => V3.dot (-τ1) (V3.smul dx (a + b))) d (d.drop 1))
+
+/-- `stress_energy` from the full 3 x 3 stress array `tau`: the documented `τ_2l` is the SECOND ROW `tau[1, :]`. -/
+def stressEnergyT (full cdiff : Bool) (τ : M3 K) (x : List K) (d : List (V3 K)) : K :=
+  stressEnergy full cdiff τ.r1 x d
 
 /-- `surface_energy = Σ dot(ρ² Δx, β) / 4 = Σ_j β_lj / 4 Σ_i ρ_l[i]² Δx`: the squared density component `l`
     is contracted with the FIRST index of `β` (row `l`), all columns `j` summed. -/
